@@ -5,7 +5,8 @@
    ExtrOcamlZBigInt (positive, N, Z and their arithmetic mapped to zarith's Big_int_Z); nothing else.
    nat stays inductive. *)
 From Coq Require Import Extraction ExtrOcamlBasic ExtrOcamlZBigInt ZArith NArith List.
-From GmsmVerif Require Import Lib.Outcome EC.ECAffine EC.SM2Curve EC.P256Model EC.LimbModel.
+From GmsmVerif Require Import Lib.Outcome EC.ECAffine EC.SM2Curve EC.P256Model EC.LimbModel EC.LimbRefine EC.LimbPoint
+  EC.LimbSelect EC.LimbScalar EC.LimbScalarMult EC.LimbAPI.
 Extraction Language OCaml.
 Extraction "ec_model.ml"
   Params_model IsOnCurve_model Add_model Double_model ScalarMult_model ScalarBaseMult_model GenerateKey_model
@@ -13,4 +14,6 @@ Extraction "ec_model.ml"
   ReduceDegree_model PointDouble_model PointAddMixed_model PointAdd_model PointSub_model
   sm2_add sm2_double sm2_mul sm2_base_mul sm2_on_curve sm2_valid encode_point decode_point
   sm2P256Add_limbs sm2P256Sub_limbs sm2P256Mul_limbs sm2P256Square_limbs sm2P256ReduceDegree_limbs
-  sm2P256FromBig_limbs sm2P256ToBig_limbs.
+  sm2P256FromBig_limbs sm2P256ToBig_limbs
+  PointDouble_limbs PointAddMixed_limbs PointAdd_limbs PointSub_limbs
+  IsOnCurve_limbs Add_limbs Double_limbs ScalarMult_limbs ScalarBaseMult_limbs GenerateKey_limbs.
